@@ -249,6 +249,32 @@ func propC15(t *rapid.T) {
 		stackEnab = zap.LevelEnablerFunc(func(zapcore.Level) bool { state = !state; return !state })
 	}
 	base := zap.New(core, zap.WithCaller(callerOn), zap.AddStacktrace(stackEnab), zap.WithPanicHook(countHook{term}), zap.WithFatalHook(countHook{term}), zap.AddCallerSkip(skipEarly))
+	// the equivalent route through a configuration: Config.Build decides about caller annotation and stack traces
+	// from DisableCaller / DisableStacktrace / Development alone - not from which keys the encoder happens to print
+	// (hooks, wrapped cores and custom encoders see Entry.Caller and Entry.Stack whatever the key names are)
+	buildRoute := rapid.SampledFrom([]string{"New", "New", "Config(production)", "Config(development)"}).Draw(t, "constructor")
+	if buildRoute != "New" && !flipflop {
+		cfg := zap.NewProductionConfig()
+		at := zapcore.ErrorLevel
+		if buildRoute == "Config(development)" {
+			cfg = zap.NewDevelopmentConfig()
+			at = zapcore.WarnLevel
+		}
+		cfg.Level = zap.NewAtomicLevelAt(zapcore.DebugLevel)
+		cfg.DisableCaller = !callerOn
+		if rapid.Bool().Draw(t, "encoderOmitsAnnotationKeys") {
+			cfg.EncoderConfig.CallerKey, cfg.EncoderConfig.FunctionKey, cfg.EncoderConfig.StacktraceKey = zapcore.OmitKey, zapcore.OmitKey, zapcore.OmitKey
+		}
+		b, err := cfg.Build(zap.WrapCore(func(zapcore.Core) zapcore.Core { return core }), zap.WithPanicHook(countHook{term}), zap.WithFatalHook(countHook{term}), zap.AddCallerSkip(skipEarly))
+		if err != nil {
+			t.Fatalf("VERIF-INCONCLUSIVE Build: %v", err)
+		}
+		base = b
+		stackAtomic.SetLevel(at)
+		stackSet = c05Enab{al: &stackAtomic}
+	} else {
+		buildRoute = "New"
+	}
 	lg := base
 	var sg *zap.SugaredLogger
 	var chain []string
@@ -297,7 +323,7 @@ func propC15(t *rapid.T) {
 			}
 		}
 	}
-	if rapid.IntRange(0, 2).Draw(t, "stackLevelChangesAfterDerivation") == 0 {
+	if buildRoute == "New" && rapid.IntRange(0, 2).Draw(t, "stackLevelChangesAfterDerivation") == 0 {
 		// the stack-trace threshold is a LevelEnabler: a dynamic one is consulted at every call
 		stackAtomic.SetLevel(zapcore.Level(rapid.IntRange(-1, 6).Draw(t, "newStackAt")))
 	}
